@@ -182,7 +182,3 @@ def summarize(spec, kind):
 def search(ctx):
     return run(ctx)
 
-
-def replay(ctx, path):
-    print(open(path).read()[:4000])
-    return 0
